@@ -53,6 +53,14 @@ void h_bool(void) {
     __CPROVER_assert(g_mode == 1 && g_bool_set, "the value of a cast to bool is handed on after the conversion to bool");
     __CPROVER_assert(g_bool_val == (g_v_isfloat ? (g_v_float != 0.0) : (g_v_intvalue != 0)), "(bool)v is 0 for 0 and 1 for every other value");
 }
+/* c ? a : b: the result is converted to the common type of a and b (C11 6.5.15p5) */
+void h_ternary_value(void) {
+    _Bool has_vt = nondet_bool(), integral = nondet_bool(), isint = nondet_bool(), imp = nondet_bool(); int ptr = nondet_bool();
+    g_tern = 0;
+    ternary_value(has_vt, integral, ptr, isint, imp);
+    if (has_vt && integral && ptr == 0 && isint && !imp) __CPROVER_assert(g_tern == 2, "a known / possible integer value reaches a conditional operator of integer type converted to that type");
+    else __CPROVER_assert(g_tern == 1, "every other value is handed on");
+}
 void h_cover(void) {
     struct Platform pl; pl.char_bit = 8; pl.short_bit = 16; pl.int_bit = 32; pl.long_bit = 64; pl.long_long_bit = 64;
     g_mode = 0; cast_dispatch(VType_CHAR, Sign_UNKNOWN_SIGN, 0, 0, 1, 0, &pl, 's');
@@ -124,11 +132,29 @@ def build(ctx):
     ], ID)
     if re.search(r'valueType|value\.|settings|std::|Value::', extract.mask(t)):
         raise extract.ExtractError("K57: setTokenValueCast not fully lowered: %r" % re.findall(r'[^\n]*(?:valueType|value\.|settings|std::|Value::)[^\n]*', extract.mask(t))[:3])
+    # the value of a conditional operator: converted to the operator's type
+    ft = extract.locate_function("lib/vf_settokenvalue.cpp", r'^\s*static void setTernaryValue\(Token\* ternary, Value value, const Settings& settings\)')
+    kb.add_located("setTernaryValue", ft)
+    tt, k = located_rules(ft, _common.VT_RULES + [
+        (r'^\s*static void setTernaryValue\(Token\* ternary, Value value, const Settings& settings\)', 'static void ternary_value(_Bool has_vt, _Bool vt_integral, int vt_pointer, _Bool v_isint, _Bool v_impossible)', 1, 1),
+        (r'const ValueType\s*\*\s*vt = ternary->valueType\(\)\s*;', '', 1, 1),
+        (r'\bvt && vt->isIntegral\(\) && vt->pointer == 0', 'has_vt && vt_integral && vt_pointer == 0', 1, 1),
+        (r'\bvalue\.isIntValue\(\)', 'v_isint', 1, 1),
+        (r'\bvalue\.isImpossible\(\)', 'v_impossible', 1, 1),
+        (r'\bsetTokenValueCast\(ternary, \*vt, std::move\(value\), settings\)\s*;', 'g_tern = 2;', 1, 1),
+        (r'\bsetTokenValue\(ternary, std::move\(value\), settings\)\s*;', 'g_tern = 1;', 1, 1),
+    ], ID + ".ternary"); n += k
+    if re.search(r'ternary->|value\.|settings|std::|\bvt\b', extract.mask(tt)):
+        raise extract.ExtractError("K57: setTernaryValue not fully lowered: %r" % re.findall(r'[^\n]*(?:ternary->|value\.|settings|std::|\bvt\b)[^\n]*', extract.mask(tt))[:3])
+    whole = extract.strip_comments(extract.locate_function("lib/vf_settokenvalue.cpp", r'^\s*void\s+setTokenValue\s*\(\s*Token\s*\*\s*tok\s*,').text)
+    if len(re.findall(r'\bsetTernaryValue\(parent,', whole)) != 3:
+        raise extract.ExtractError("setTokenValue: the three places that hand a value to a conditional operator no longer all call setTernaryValue")
     kb.rules_fired = n
-    text = _common.BASE + enums + pstruct + PRELUDE + extract.strip_comments(t) + "\n"
+    text = _common.BASE + enums + pstruct + PRELUDE + extract.strip_comments(t) + "\n" + "int g_tern;   /* 1: handed on unchanged, 2: converted to the operator's type (setTokenValueCast) */\n" + extract.strip_comments(tt) + "\n"
     extract.residue_scan(text, ID)
     kb.ctext = text + HARNESS
     kb.job("dispatch", "h_dispatch", replay="char", note="loop-free function; every integer target type and signedness, long 32/64, every default sign")
+    kb.job("ternary", "h_ternary_value", note="loop-free function; the three call sites in setTokenValue are pinned by text")
     kb.job("bool", "h_bool", replay="bool", note="loop-free function; every integer and every (non-NaN) floating point value")
     kb.job("cover", "h_cover", kind="cover")
     kb.assumptions += ["castValue is a record of (sign, bits) here (its arithmetic is K04's contract); setTokenValue is `hand on`; the unknown-type tail of the function is an oracle",
